@@ -67,7 +67,7 @@ func runC03(c *Ctx) {
 			if !(kind == "systematic" && c.Tier == "quick") { // the systematic stream is large: its prefixes are cut in the thorough tier
 				w := consumed
 				cuts := []int{}
-				if len(w) <= 64 || (c.Tier == "thorough" && kind != "systematic") {
+				if len(w) <= 64 || (c.Tier == "thorough" && kind != "systematic" && len(w) <= 2500) {
 					for k := 0; k < len(w); k++ {
 						cuts = append(cuts, k)
 					}
